@@ -112,9 +112,14 @@ impl GGraph {
                     "dependencies": p.deps.iter().map(|(d, _)| self.pkgid(&self.pkgs[*d])).collect::<Vec<_>>(),
                     "deps": p.deps.iter().map(|(d, mask)| {
                         let mut kinds = vec![];
-                        if mask & 1 != 0 { kinds.push(json!({"kind": null, "target": null})); }
-                        if mask & 2 != 0 { kinds.push(json!({"kind": "build", "target": null})); }
-                        if mask & 4 != 0 { kinds.push(json!({"kind": "dev", "target": null})); }
+                        // a platform-gated edge ([target.'cfg(..)'.dependencies]) is an edge all
+                        // the same; some edges are gated, some declared both ways
+                        let gate = (*d + p.name.len() + p.deps.len()) % 4;
+                        let target = if gate == 0 { json!("cfg(windows)") } else { json!(null) };
+                        if mask & 1 != 0 { kinds.push(json!({"kind": null, "target": target})); }
+                        if mask & 1 != 0 && gate == 1 { kinds.push(json!({"kind": null, "target": "cfg(unix)"})); }
+                        if mask & 2 != 0 { kinds.push(json!({"kind": "build", "target": target})); }
+                        if mask & 4 != 0 { kinds.push(json!({"kind": "dev", "target": target})); }
                         json!({ "name": self.pkgs[*d].name, "pkg": self.pkgid(&self.pkgs[*d]), "dep_kinds": kinds })
                     }).collect::<Vec<_>>(),
                 })
